@@ -200,6 +200,54 @@ def C14_deep(ni: int, di: int, hash_names: bool) -> bool:
   return True
 
 
+# ---- determinism across daemon restarts ------------------------------------------------------------------
+STABLE = ['a.b.c', 'servers.' + 'x' * 300 + '.cpu', 'y' * 252, 'z' * 251 + '.q', 'é.ü.' + 'w' * 260, 'cpu;host=' + 'h' * 300, 'm;a=1;b=2',
+          '/abs.' + 'k' * 255, 'a..b', 'n' * 1000]
+
+
+def _other_process(seed):
+  """The same mapping computed by another interpreter start (another string-hash seed), from the same source."""
+  import json
+  import os
+  import subprocess
+  from vp_lib.api import REPO
+  code = ('import json, sys\n'
+          'from carbon.util import TaggedSeries\n'
+          'names = json.loads(sys.stdin.read())\n'
+          'print(json.dumps([[TaggedSeries.encode(n, hash_only=False), TaggedSeries.encode(n, hash_only=True), TaggedSeries.encode(n, sep=\'.\')] for n in names]))\n')
+  env = dict(os.environ, PYTHONHASHSEED=str(seed), PYTHONPATH=os.path.join(REPO, 'lib'))
+  out = subprocess.run([sys.executable, '-c', code], input=json.dumps(STABLE), capture_output=True, text=True, env=env, timeout=120)
+  if out.returncode != 0:
+    raise LookupError('cannot compute the reference mapping in a second interpreter: %s' % out.stderr[-300:])
+  return json.loads(out.stdout)
+
+
+_RESTART_1 = _other_process(1)
+_RESTART_2 = _other_process(2)
+
+
+def C14_stable(ni: int, form: int) -> bool:
+  """
+  pre: 0 <= ni < len(STABLE)
+  pre: 0 <= form <= 2
+  post: __return__
+  """
+  # deterministic mapping: the path computed now equals the one another daemon start computes (else a file
+  # created before a restart is not found after it)
+  ni, form = int(ni), int(form)
+  name = STABLE[ni]
+  if form == 0:
+    here = cutil.TaggedSeries.encode(name, hash_only=False)
+  elif form == 1:
+    here = cutil.TaggedSeries.encode(name, hash_only=True)
+  else:
+    here = cutil.TaggedSeries.encode(name, sep='.')
+  cover('compared')
+  if here != _RESTART_1[ni][form] or here != _RESTART_2[ni][form]:
+    raise AssertionError('mapping of a %d-character name differs between interpreter starts' % len(name))
+  return here == cutil.TaggedSeries.encode(name, hash_only=(form == 1)) if form < 2 else True
+
+
 def _segments_ok(name):
   """Untagged name made of non-empty dot-separated segments without path separators."""
   if len(name) == 0 or name.startswith('.') or name.endswith('.'):
@@ -267,6 +315,10 @@ HARNESSES = [
   H('C14_deep', quick=dict(timeout=280), covers=['mapped'],
     encodes=['carbon.database:WhisperDatabase._getFilesystemPath', 'carbon.util:TaggedSeries.encode'],
     assumptions=['%d crafted long names (symbolic index), real sha256 replaced by the stub, os.path.normpath decides' % len(DEEP)]),
+  H('C14_stable', quick=dict(timeout=120), covers=['compared'],
+    encodes=['carbon.util:TaggedSeries.encode'],
+    assumptions=['%d names incl. segments of 251 / 252 / 300 / 1000 characters, tagged and untagged (symbolic index); the reference values are computed at start-up by two other '
+                 'interpreter processes with different string-hash seeds from the same source tree' % len(STABLE)]),
   H('C14_injective', quick=dict(timeout=280, extra_pre=['len(a) <= 2 and len(b) <= 3']), thorough=dict(timeout=1500),
     covers=['compared'], replay='replay_injective', encodes=['carbon.util:TaggedSeries.encode'], assumptions=_ASSUME),
   H('C14_lookalikes', quick=dict(timeout=200), covers=['compared'], encodes=['carbon.util:TaggedSeries.encode'],
